@@ -65,6 +65,9 @@ inline void add_exec_counters(JudgeOut &out, const RunResult &r)
 	out.k.add("step.stream_reads", r.reads);
 	out.k.add("step.callback_invocations", r.cb_invocations);
 	out.hash = fnv64(std::to_string(r.hash), out.hash ? out.hash : 1469598103934665603ULL);
+	for (auto &o : r.ops)
+		if (!o.dump.empty())
+			out.states.push_back(fnv64(o.dump));
 }
 
 inline std::string death_name(DeathKind d)
